@@ -79,6 +79,9 @@ pub struct Profile {
     pub long_chain: u32,
     pub churn_thread: bool,
     pub tags: bool,
+    /// choreographed executions: worker 0 releases a root and collects with a conditional stall
+    /// once that release is due; the other workers start when it is stalled
+    pub choreo: bool,
 }
 
 pub struct Shared {
@@ -1393,21 +1396,21 @@ impl T {
         }
         if ok {
             if pre.dbegin != 0 {
-                mon::violation(
+                mon::observer_violation(
                     "C05",
                     &format!("C05|upgrade-succeeded-after-destruction-began|{}", what),
                     format!("{} on #{} returned a reference although its destruction had begun (stamp {}) before the call (stamp {}); drop_end={}", what, id, pre.dbegin, pre.inv, pre.drop_end),
                 );
             }
             if pre.dset != 0 {
-                mon::violation(
+                mon::observer_violation(
                     "C05",
                     &format!("C05|upgrade-succeeded-after-destructed-flag|{}", what),
                     format!("{} on #{} succeeded although DESTRUCTED was set before the call", what, id),
                 );
             }
             if pre.first_fail != 0 {
-                mon::violation(
+                mon::observer_violation(
                     "C05",
                     &format!("C05|upgrade-succeeded-after-earlier-failure|{}", what),
                     format!("{} on #{} succeeded although an upgrade that returned at stamp {} (before this call, stamp {}) had failed", what, id, pre.first_fail, pre.inv),
@@ -1416,14 +1419,14 @@ impl T {
         } else {
             let _ = o.first_fail_upgrade_ret.compare_exchange(0, ret, SeqCst, SeqCst);
             if holds_rc {
-                mon::violation(
+                mon::observer_violation(
                     "C05",
                     &format!("C05|upgrade-failed-while-caller-holds-rc|{}", what),
                     format!("{} on #{} failed while the calling thread itself holds an Rc to it", what, id),
                 );
             }
             if sched::mode() == sched::Mode::Serial && o.dset_stamp.load(SeqCst) == 0 && o.dbegin_stamp.load(SeqCst) == 0 {
-                mon::violation(
+                mon::observer_violation(
                     "C05",
                     &format!("C05|upgrade-failed-before-destruction|{}", what),
                     format!("{} on #{} failed although its destruction has not begun", what, id),
